@@ -11,7 +11,8 @@ import traceback
 import mc
 from mc.tally import Tally, jsonable
 
-EVIDENCE_DIR = os.path.join(mc.VERIF_DIR, "evidence")
+# Runs against a scratch tree (VERIF_REPO) must not overwrite the committed evidence.
+EVIDENCE_DIR = os.path.join(mc.VERIF_DIR, "evidence-scratch" if os.environ.get("VERIF_REPO") else "evidence")
 REPLAY_DIR = os.path.join(mc.VERIF_DIR, "replays")
 KNOWN_FILE = os.path.join(mc.VERIF_DIR, "known_findings.json")
 
